@@ -74,4 +74,33 @@ def grpcJudge (coe : Bool) (nLines : Nat) (blank : Nat → Bool) (impl : String)
         if n < nLines then "ok" else s!"fail:outcome:grpc/json provider reported an error after delivering all {nLines} lines"
       else s!"fail:outcome:grpc/json provider unexpected end {endS}"
 
+/-- metamorphic prefix check, every format (no oracle for the third-party parsers is needed): the provider was run on
+`good` alone (`A[…]`) and on `good ++ junk` (`B[…]`).
+* when `good` alone ends well, its entries are the first entries of the second run, unchanged;
+* `truncated` = `junk` is the beginning of a JSON object that lacks its closing brace (and `good` is not one JSON
+  array, after which nothing is read): the second run must deliver no more than the first and end with an error. -/
+def pfxJudge (kind : String) (truncated : Bool) (impl : String) : String :=
+  match crashVerdict kind impl with
+  | some v => v
+  | none =>
+    if containsSub impl "oom-guard" then "skip:oom-guard" else
+    match impl.splitOn "] B[" with
+    | [a, b] =>
+      let a := (a.drop 2).toString       -- "A["
+      let entries (o : String) : List String :=
+        if (kvOf o "n").toNat?.getD 0 == 0 then [] else (kvOf o "e").splitOn ","
+      let ea := entries a
+      let eb := entries b
+      let endA := kvOf a "end"
+      let endB := (kvOf b "end").dropEndWhile (· == ']') |>.toString
+      if !endA.startsWith "ok" then "ok"
+      else if !ea.isPrefixOf eb then
+        s!"fail:prefix:{kind} entries of the well-formed part changed when something was appended to it"
+      else if truncated && !endB.startsWith "err" && !endB.startsWith "ctor-err" then
+        s!"fail:accepted:{kind} a truncated last entry was not reported, end={endB}"
+      else if truncated && eb.length != ea.length then
+        s!"fail:prefix:{kind} a truncated last entry was delivered"
+      else "ok"
+    | _ => s!"fail:driver:unparsable observation {impl.take 60}"
+
 end Pandora.Spec.C13
